@@ -29,6 +29,7 @@ FINDING_TRIGGERS = {
     "global_read_in_expression_with_call_that_writes_it",
     "value_function_with_single_call_site_inside_function",
     "name_bound_to_enum_or_structure_and_rebound",
+    "math_function_of_hash",
 }
 
 # hazards = generator switches that trigger a known defect of the pinned tree
